@@ -1,9 +1,740 @@
-//! C18 — (stub; not built yet)
+//! C18 — the tools' dual graph matches its definition; element counts agree.
+//!
+//! op:  `dual <raw|medit> <threads> <nnodes> <nblocks> {<ty> <count> <refs> <count*npe nodes>}*`
+//!      ty: 0 vertex, 1 edge, 2 triangle, 3 quadrangle, 4 quadrilateral, 5 tetrahedron, 6 hexahedron;
+//!      `raw` builds the mesh with `Mesh::from_raw_parts`, `medit` writes a MEDIT ASCII text and
+//!      parses it with the mesh-io reader (only the first `refs` element lines of a block carry a
+//!      reference column; `refs < count` is only expressible this way).
+//! out: `ok <size> | <indptr> | <indices> | d<data len> | bary <n|panic> used <m>` | `panic …`
 
 use crate::common::*;
+use std::collections::BTreeSet;
+use std::fmt::Write as _;
 
-pub fn generate(_ctx: &mut Ctx) {}
+const NPE: [usize; 7] = [1, 2, 3, 4, 4, 4, 8];
+const DIM: [usize; 7] = [0, 1, 2, 2, 2, 3, 3];
+const MEDIT_NAME: [&str; 7] =
+    ["", "Edges", "Triangles", "Quadrangles", "Quadrilaterals", "Tetrahedra", "Hexahedra"];
+const POOLS: [usize; 3] = [1, 4, 16];
+
+#[derive(Clone, Debug)]
+struct Blk {
+    ty: usize,
+    refs: usize,
+    nodes: Vec<usize>,
+}
+
+impl Blk {
+    fn count(&self) -> usize {
+        self.nodes.len() / NPE[self.ty]
+    }
+}
+
+// ------------------------------------------------------------------ generators
+
+/// Elements per kind before they are cut into blocks.
+#[derive(Default)]
+struct Soup {
+    nn: usize,
+    /// (type code, nodes)
+    els: Vec<(usize, Vec<usize>)>,
+}
+
+fn distinct(rng: &mut Rng, nn: usize, k: usize) -> Vec<usize> {
+    // k distinct node ids out of 0..nn (nn >= k)
+    let mut v: Vec<usize> = Vec::with_capacity(k);
+    while v.len() < k {
+        let x = rng.usize(nn);
+        if !v.contains(&x) {
+            v.push(x);
+        }
+    }
+    v
+}
+
+fn quad_code(rng: &mut Rng) -> usize {
+    if rng.chance(1, 2) {
+        3
+    } else {
+        4
+    }
+}
+
+/// Conforming structured 2-D mesh: quads, each split into two triangles with
+/// probability `p_tri`/8; boundary edges and a few vertex elements.
+fn grid2d(rng: &mut Rng, nx: usize, ny: usize, p_tri: u64, lower: bool) -> Soup {
+    let id = |i: usize, j: usize| i + j * (nx + 1);
+    let mut s = Soup { nn: (nx + 1) * (ny + 1), els: vec![] };
+    let qc = quad_code(rng);
+    for j in 0..ny {
+        for i in 0..nx {
+            let (a, b, c, d) = (id(i, j), id(i + 1, j), id(i + 1, j + 1), id(i, j + 1));
+            if rng.chance(p_tri, 8) {
+                if rng.chance(1, 2) {
+                    s.els.push((2, vec![a, b, c]));
+                    s.els.push((2, vec![a, c, d]));
+                } else {
+                    s.els.push((2, vec![a, b, d]));
+                    s.els.push((2, vec![b, c, d]));
+                }
+            } else {
+                s.els.push((qc, vec![a, b, c, d]));
+            }
+        }
+    }
+    if lower {
+        for i in 0..nx {
+            s.els.push((1, vec![id(i, 0), id(i + 1, 0)]));
+            s.els.push((1, vec![id(i, ny), id(i + 1, ny)]));
+        }
+        for j in 0..ny {
+            s.els.push((1, vec![id(0, j), id(0, j + 1)]));
+            s.els.push((1, vec![id(nx, j), id(nx, j + 1)]));
+        }
+        for _ in 0..rng.usize(4) {
+            s.els.push((0, vec![rng.usize(s.nn)]));
+        }
+    }
+    s
+}
+
+/// Structured 3-D mesh: hexahedra, each split into six tetrahedra (Kuhn) with
+/// probability `p_tet`/8 (conforming between split cells; a hexahedron next to
+/// tetrahedra is a non-conforming interface); boundary faces, edges, vertices.
+fn grid3d(rng: &mut Rng, nx: usize, ny: usize, nz: usize, p_tet: u64, lower: bool) -> Soup {
+    let id = |i: usize, j: usize, k: usize| i + (nx + 1) * (j + (ny + 1) * k);
+    let mut s = Soup { nn: (nx + 1) * (ny + 1) * (nz + 1), els: vec![] };
+    const PERMS: [[usize; 3]; 6] =
+        [[0, 1, 2], [0, 2, 1], [1, 0, 2], [1, 2, 0], [2, 0, 1], [2, 1, 0]];
+    for k in 0..nz {
+        for j in 0..ny {
+            for i in 0..nx {
+                if rng.chance(p_tet, 8) {
+                    for p in PERMS {
+                        let mut c = [i, j, k];
+                        let mut t = vec![id(c[0], c[1], c[2])];
+                        for ax in p {
+                            c[ax] += 1;
+                            t.push(id(c[0], c[1], c[2]));
+                        }
+                        s.els.push((5, t));
+                    }
+                } else {
+                    s.els.push((
+                        6,
+                        vec![
+                            id(i, j, k),
+                            id(i + 1, j, k),
+                            id(i + 1, j + 1, k),
+                            id(i, j + 1, k),
+                            id(i, j, k + 1),
+                            id(i + 1, j, k + 1),
+                            id(i + 1, j + 1, k + 1),
+                            id(i, j + 1, k + 1),
+                        ],
+                    ));
+                }
+            }
+        }
+    }
+    if lower {
+        let qc = quad_code(rng);
+        for j in 0..ny {
+            for i in 0..nx {
+                let q = vec![id(i, j, 0), id(i + 1, j, 0), id(i + 1, j + 1, 0), id(i, j + 1, 0)];
+                if rng.chance(1, 3) {
+                    s.els.push((2, vec![q[0], q[1], q[2]]));
+                    s.els.push((2, vec![q[0], q[2], q[3]]));
+                } else {
+                    s.els.push((qc, q));
+                }
+            }
+        }
+        for i in 0..nx {
+            s.els.push((1, vec![id(i, 0, 0), id(i + 1, 0, 0)]));
+        }
+        for _ in 0..rng.usize(3) {
+            s.els.push((0, vec![rng.usize(s.nn)]));
+        }
+    }
+    s
+}
+
+/// Random non-conforming soup: elements draw distinct nodes from a small pool.
+fn random_soup(rng: &mut Rng, three_d: bool, nn: usize, ne: usize, lower: usize) -> Soup {
+    let mut s = Soup { nn, els: vec![] };
+    let top: &[usize] = if three_d { &[5, 5, 6] } else { &[2, 2, 3, 4] };
+    let low: &[usize] = if three_d { &[0, 1, 2, 3, 4] } else { &[0, 1] };
+    for _ in 0..ne {
+        let ty = *rng.pick(top);
+        if nn >= NPE[ty] {
+            s.els.push((ty, distinct(rng, nn, NPE[ty])));
+        }
+    }
+    for _ in 0..lower {
+        let ty = *rng.pick(low);
+        if nn >= NPE[ty] {
+            s.els.push((ty, distinct(rng, nn, NPE[ty])));
+        }
+    }
+    s
+}
+
+/// Cut a soup into blocks: elements shuffled, each type in 1–3 blocks, blocks
+/// in random order, sometimes an empty block in between.
+fn to_blocks(rng: &mut Rng, mut s: Soup, allow_vertex: bool) -> (usize, Vec<Blk>) {
+    rng.shuffle(&mut s.els);
+    let mut blocks: Vec<Blk> = vec![];
+    for ty in 0..7 {
+        if ty == 0 && !allow_vertex {
+            continue;
+        }
+        let els: Vec<&Vec<usize>> = s.els.iter().filter(|e| e.0 == ty).map(|e| &e.1).collect();
+        if els.is_empty() {
+            continue;
+        }
+        let parts = 1 + if rng.chance(1, 3) { rng.usize(3) } else { 0 };
+        let mut cuts: Vec<usize> = (0..parts - 1).map(|_| rng.usize(els.len() + 1)).collect();
+        cuts.push(0);
+        cuts.push(els.len());
+        cuts.sort_unstable();
+        for w in cuts.windows(2) {
+            let nodes: Vec<usize> = els[w[0]..w[1]].iter().flat_map(|e| e.iter().cloned()).collect();
+            blocks.push(Blk { ty, refs: w[1] - w[0], nodes });
+        }
+    }
+    if rng.chance(1, 6) {
+        let ty = 1 + rng.usize(6);
+        blocks.push(Blk { ty, refs: 0, nodes: vec![] });
+    }
+    rng.shuffle(&mut blocks);
+    (s.nn, blocks)
+}
+
+fn emit(ctx: &mut Ctx, shape: &str, nn: usize, blocks: &[Blk]) {
+    let has_vertex = blocks.iter().any(|b| b.ty == 0);
+    let mode = if !has_vertex && ctx.rng.chance(1, 4) { "medit" } else { "raw" };
+    let threads = *ctx.rng.pick(&POOLS);
+    ctx.count(&format!("shape:{}", shape));
+    ctx.count(&format!("mode:{}", mode));
+    ctx.count(&format!("pool:{}", threads));
+    ctx.count(&format!("blocks:{}", blocks.len().min(8)));
+    let op = format_op(mode, threads, nn, blocks);
+    run_op(ctx, &op);
+}
+
+pub fn generate(ctx: &mut Ctx) {
+    // ---- tiny and special meshes
+    let tiny: Vec<(usize, Vec<Blk>)> = vec![
+        (0, vec![]),
+        (3, vec![]),
+        (3, vec![Blk { ty: 2, refs: 0, nodes: vec![] }]),
+        (3, vec![Blk { ty: 2, refs: 1, nodes: vec![0, 1, 2] }]),
+        (4, vec![Blk { ty: 2, refs: 2, nodes: vec![0, 1, 2, 1, 2, 3] }]),
+        (4, vec![Blk { ty: 2, refs: 2, nodes: vec![0, 1, 2, 0, 1, 2] }]),
+        // edges only / vertices only / edges + vertices
+        (3, vec![Blk { ty: 1, refs: 2, nodes: vec![0, 1, 1, 2] }]),
+        (3, vec![Blk { ty: 0, refs: 3, nodes: vec![0, 1, 1] }]),
+        (3, vec![Blk { ty: 0, refs: 2, nodes: vec![0, 2] }, Blk { ty: 1, refs: 2, nodes: vec![0, 1, 1, 2] }]),
+        // a triangle and a quad sharing an edge, edge block first
+        (
+            5,
+            vec![
+                Blk { ty: 1, refs: 1, nodes: vec![0, 1] },
+                Blk { ty: 3, refs: 1, nodes: vec![1, 2, 3, 4] },
+                Blk { ty: 2, refs: 1, nodes: vec![0, 1, 2] },
+            ],
+        ),
+        // a tetrahedron and a hexahedron sharing three nodes, face block between
+        (
+            9,
+            vec![
+                Blk { ty: 5, refs: 1, nodes: vec![0, 1, 2, 8] },
+                Blk { ty: 4, refs: 1, nodes: vec![0, 1, 2, 3] },
+                Blk { ty: 6, refs: 1, nodes: vec![0, 1, 2, 3, 4, 5, 6, 7] },
+            ],
+        ),
+        // same type twice with an edge block in between
+        (
+            5,
+            vec![
+                Blk { ty: 2, refs: 1, nodes: vec![0, 1, 2] },
+                Blk { ty: 1, refs: 2, nodes: vec![0, 1, 3, 4] },
+                Blk { ty: 2, refs: 2, nodes: vec![1, 2, 3, 2, 3, 4] },
+            ],
+        ),
+    ];
+    for (nn, blocks) in &tiny {
+        for &threads in &POOLS {
+            ctx.count("shape:tiny");
+            let op = format_op("raw", threads, *nn, blocks);
+            run_op(ctx, &op);
+        }
+    }
+
+    // ---- exhaustive: every ordered tuple (length 1..=3) of cells over a small node set
+    let (tri_nodes, tet_nodes) = if ctx.quick() { (4usize, 5usize) } else { (5, 6) };
+    for (ty, pool_nodes) in [(2usize, tri_nodes), (5usize, tet_nodes)] {
+        let k = NPE[ty];
+        // all k-subsets of 0..pool_nodes
+        let mut cells: Vec<Vec<usize>> = vec![];
+        for mask in 0u32..(1 << pool_nodes) {
+            if mask.count_ones() as usize == k {
+                cells.push((0..pool_nodes).filter(|i| mask >> i & 1 == 1).collect());
+            }
+        }
+        let m = cells.len();
+        let mut n_cases = 0usize;
+        for len in 1..=3usize {
+            let total = m.pow(len as u32);
+            for code in 0..total {
+                let mut c = code;
+                let mut nodes = vec![];
+                for _ in 0..len {
+                    nodes.extend_from_slice(&cells[c % m]);
+                    c /= m;
+                }
+                let blocks = vec![Blk { ty, refs: len, nodes }];
+                let threads = POOLS[code % 3];
+                ctx.count("shape:exhaustive");
+                let op = format_op("raw", threads, pool_nodes, &blocks);
+                run_op(ctx, &op);
+                n_cases += 1;
+            }
+        }
+        ctx.notes.push(format!(
+            "exhaustive sub-space: every ordered tuple of 1..=3 {} over {} nodes ({} cases)",
+            if ty == 2 { "triangles" } else { "tetrahedra" },
+            pool_nodes,
+            n_cases
+        ));
+    }
+
+    // ---- structured and random meshes
+    let n = ctx.budget(300, 10000);
+    for _ in 0..n {
+        let big = ctx.rng.chance(1, 12);
+        match ctx.rng.usize(6) {
+            0 | 1 => {
+                let m = if big { 14 } else { 5 };
+                let (nx, ny) = (1 + ctx.rng.usize(m), 1 + ctx.rng.usize(m));
+                let p = *ctx.rng.pick(&[0u64, 0, 3, 5, 8]);
+                let lower = ctx.rng.chance(2, 3);
+                let s = grid2d(&mut ctx.rng, nx, ny, p, lower);
+                let (nn, blocks) = to_blocks(&mut ctx.rng, s, true);
+                emit(ctx, "grid2d", nn, &blocks);
+            }
+            2 | 3 => {
+                let m = if big { 5 } else { 3 };
+                let (nx, ny, nz) = (1 + ctx.rng.usize(m), 1 + ctx.rng.usize(m), 1 + ctx.rng.usize(m));
+                let p = *ctx.rng.pick(&[0u64, 0, 2, 4, 8]);
+                let lower = ctx.rng.chance(2, 3);
+                let s = grid3d(&mut ctx.rng, nx, ny, nz, p, lower);
+                let (nn, blocks) = to_blocks(&mut ctx.rng, s, true);
+                emit(ctx, "grid3d", nn, &blocks);
+            }
+            _ => {
+                let three_d = ctx.rng.chance(1, 2);
+                let nn = if three_d { 8 + ctx.rng.usize(if big { 60 } else { 12 }) } else { 4 + ctx.rng.usize(if big { 60 } else { 10 }) };
+                let ne = ctx.rng.usize(if big { 120 } else { 14 });
+                let lower = ctx.rng.usize(6);
+                let s = random_soup(&mut ctx.rng, three_d, nn, ne, lower);
+                let (nn, blocks) = to_blocks(&mut ctx.rng, s, true);
+                emit(ctx, if three_d { "random3d" } else { "random2d" }, nn, &blocks);
+            }
+        }
+    }
+
+    // ---- degenerate elements (a node repeated inside an element): separate stream
+    for _ in 0..ctx.budget(60, 1500) {
+        let three_d = ctx.rng.chance(1, 2);
+        let nn = if three_d { 8 + ctx.rng.usize(6) } else { 4 + ctx.rng.usize(6) };
+        let ne = 2 + ctx.rng.usize(8);
+        let mut s = random_soup(&mut ctx.rng, three_d, nn, ne, 2);
+        let hits = 1 + ctx.rng.usize(3);
+        for _ in 0..hits {
+            if s.els.is_empty() {
+                break;
+            }
+            let e = ctx.rng.usize(s.els.len());
+            let k = s.els[e].1.len();
+            if k >= 2 {
+                let (a, b) = (ctx.rng.usize(k), ctx.rng.usize(k));
+                s.els[e].1[a] = s.els[e].1[b];
+            }
+        }
+        let (nn, blocks) = to_blocks(&mut ctx.rng, s, true);
+        emit(ctx, "degenerate", nn, &blocks);
+    }
+
+    // ---- malformed: a node id outside the mesh; element lines without a reference
+    for _ in 0..ctx.budget(30, 600) {
+        let s = if ctx.rng.chance(1, 2) {
+            grid2d(&mut ctx.rng, 2, 2, 4, true)
+        } else {
+            random_soup(&mut ctx.rng, true, 10, 5, 3)
+        };
+        let (nn, mut blocks) = to_blocks(&mut ctx.rng, s, false);
+        let nonempty: Vec<usize> = (0..blocks.len()).filter(|&i| !blocks[i].nodes.is_empty()).collect();
+        if nonempty.is_empty() {
+            continue;
+        }
+        let b = *ctx.rng.pick(&nonempty);
+        if ctx.rng.chance(1, 2) {
+            let k = ctx.rng.usize(blocks[b].nodes.len());
+            blocks[b].nodes[k] = nn + ctx.rng.usize(3);
+            ctx.count("shape:malformed-node");
+            let mode = if ctx.rng.chance(1, 2) { "medit" } else { "raw" };
+            let threads = *ctx.rng.pick(&POOLS);
+            let op = format_op(mode, threads, nn, &blocks);
+            run_op(ctx, &op);
+        } else {
+            blocks[b].refs = ctx.rng.usize(blocks[b].refs.max(1));
+            ctx.count("shape:malformed-refs");
+            let threads = *ctx.rng.pick(&POOLS);
+            let op = format_op("medit", threads, nn, &blocks);
+            run_op(ctx, &op);
+        }
+    }
+}
+
+// ------------------------------------------------------------------ protocol
+
+fn format_op(mode: &str, threads: usize, nn: usize, blocks: &[Blk]) -> String {
+    let mut s = format!("dual {} {} {} {}", mode, threads, nn, blocks.len());
+    for b in blocks {
+        write!(s, " {} {} {}", b.ty, b.count(), b.refs).unwrap();
+        for x in &b.nodes {
+            write!(s, " {}", x).unwrap();
+        }
+    }
+    s
+}
+
+fn parse_op(op: &str) -> Option<(bool, usize, usize, Vec<Blk>)> {
+    let mut it = op.split_whitespace();
+    if it.next()? != "dual" {
+        return None;
+    }
+    let medit = match it.next()? {
+        "raw" => false,
+        "medit" => true,
+        _ => return None,
+    };
+    let threads: usize = it.next()?.parse().ok()?;
+    if threads == 0 || threads > 64 {
+        return None;
+    }
+    let nn: usize = it.next()?.parse().ok()?;
+    let nb: usize = it.next()?.parse().ok()?;
+    let mut blocks = Vec::with_capacity(nb);
+    for _ in 0..nb {
+        let ty: usize = it.next()?.parse().ok()?;
+        if ty > 6 {
+            return None;
+        }
+        let count: usize = it.next()?.parse().ok()?;
+        let refs: usize = it.next()?.parse().ok()?;
+        let mut nodes = Vec::with_capacity(count * NPE[ty]);
+        for _ in 0..count * NPE[ty] {
+            nodes.push(it.next()?.parse().ok()?);
+        }
+        blocks.push(Blk { ty, refs, nodes });
+    }
+    if it.next().is_some() {
+        return None;
+    }
+    Some((medit, threads, nn, blocks))
+}
+
+fn el_type(ty: usize) -> mesh_io::ElementType {
+    use mesh_io::ElementType::*;
+    [Vertex, Edge, Triangle, Quadrangle, Quadrilateral, Tetrahedron, Hexahedron][ty]
+}
+
+fn coords(space: usize, nn: usize) -> Vec<f64> {
+    let mut c = Vec::with_capacity(space * nn);
+    for i in 0..nn {
+        c.push((i % 7) as f64);
+        c.push(((i / 7) % 5) as f64 * 0.5);
+        if space == 3 {
+            c.push((i % 3) as f64 * 0.25);
+        }
+    }
+    c
+}
+
+/// Build the mesh the op describes. `Err` = the op cannot be built this way.
+fn build_mesh(medit: bool, space: usize, nn: usize, blocks: &[Blk]) -> Result<mesh_io::Mesh, String> {
+    let wf = blocks.iter().all(|b| b.refs == b.count());
+    if !medit {
+        if !wf {
+            return Err("raw mode needs refs == count".into());
+        }
+        let topo = blocks
+            .iter()
+            .map(|b| (el_type(b.ty), b.nodes.clone(), (0..b.refs as isize).collect::<Vec<_>>()))
+            .collect();
+        return Ok(mesh_io::Mesh::from_raw_parts(space, coords(space, nn), vec![0; nn], topo));
+    }
+    if blocks.iter().any(|b| b.ty == 0 || b.refs > b.count()) {
+        return Err("not expressible in MEDIT ASCII".into());
+    }
+    let c = coords(space, nn);
+    let mut t = format!("MeshVersionFormatted 2\nDimension {}\n\nVertices\n{}\n", space, nn);
+    for i in 0..nn {
+        for k in 0..space {
+            write!(t, "{} ", c[i * space + k]).unwrap();
+        }
+        writeln!(t, "{}", i % 3).unwrap();
+    }
+    for b in blocks {
+        write!(t, "\n{}\n{}\n", MEDIT_NAME[b.ty], b.count()).unwrap();
+        for (i, el) in b.nodes.chunks(NPE[b.ty]).enumerate() {
+            for x in el {
+                write!(t, "{} ", x + 1).unwrap();
+            }
+            if i < b.refs {
+                writeln!(t, "{}", i % 4).unwrap();
+            } else {
+                writeln!(t).unwrap();
+            }
+        }
+    }
+    t.push_str("\nEnd\n");
+    t.parse::<mesh_io::Mesh>().map_err(|e| format!("reader: {}", e))
+}
+
+struct Obs {
+    rows: usize,
+    cols: usize,
+    indptr: Vec<usize>,
+    indices: Vec<usize>,
+    data_len: usize,
+    data_all_one: bool,
+}
+
+fn observe(mesh: &mesh_io::Mesh, threads: usize) -> Caught<Obs> {
+    catch(|| {
+        with_pool(threads, || {
+            let g = coupe_tools::dual(mesh);
+            Obs {
+                rows: g.rows(),
+                cols: g.cols(),
+                indptr: g.indptr().raw_storage().to_vec(),
+                indices: g.indices().to_vec(),
+                data_len: g.data().len(),
+                data_all_one: g.data().iter().all(|&x| x == 1.0),
+            }
+        })
+    })
+}
+
+// ------------------------------------------------------------------ oracle
+
+/// The definition, pairwise: cells = elements of the highest dimension that are
+/// not edges, in block order; `i ~ j` iff `i != j` and the node *sets* share at
+/// least `d` nodes. Returns (d, cells).
+fn definition(blocks: &[Blk]) -> Option<(usize, Vec<BTreeSet<usize>>, bool)> {
+    let d = blocks.iter().map(|b| DIM[b.ty]).max()?;
+    let mut cells = vec![];
+    let mut degenerate = false;
+    for b in blocks {
+        if DIM[b.ty] == d && b.ty != 1 {
+            for el in b.nodes.chunks(NPE[b.ty]) {
+                let set: BTreeSet<usize> = el.iter().cloned().collect();
+                if set.len() != el.len() {
+                    degenerate = true;
+                }
+                cells.push(set);
+            }
+        }
+    }
+    Some((d, cells, degenerate))
+}
+
+/// Structural claims: one failure signature or none. Claims that depend on the
+/// shared-node count are returned separately (`semantic`), because degenerate
+/// elements are outside the property (counted, not failed).
+fn check(
+    blocks: &[Blk],
+    o: &Obs,
+    bary: Option<usize>,
+    used: usize,
+) -> (Option<(&'static str, String)>, Option<(&'static str, String)>, bool, usize) {
+    let (d, cells, degenerate) = match definition(blocks) {
+        None => (usize::MAX, vec![], false),
+        Some(x) => x,
+    };
+    let n = cells.len();
+    let mut structural = None;
+    let mut semantic = None;
+    let mut fail = |slot: &mut Option<(&'static str, String)>, sig: &'static str, what: String| {
+        if slot.is_none() {
+            *slot = Some((sig, what));
+        }
+    };
+    if o.rows != n || o.cols != n {
+        fail(&mut structural, "dual-size", format!("shape {}x{} but {} cells", o.rows, o.cols, n));
+    }
+    let ptr_ok = o.indptr.len() == o.rows + 1
+        && o.indptr[0] == 0
+        && o.indptr.windows(2).all(|w| w[0] <= w[1])
+        && *o.indptr.last().unwrap() == o.indices.len();
+    if !ptr_ok {
+        fail(&mut structural, "csr-malformed", format!("indptr {:?} / {} indices", o.indptr, o.indices.len()));
+        return (structural, semantic, degenerate, d);
+    }
+    if o.data_len != o.indices.len() || !o.data_all_one {
+        fail(&mut structural, "csr-data", "data is not all ones of the same length as indices".into());
+    }
+    let row = |i: usize| &o.indices[o.indptr[i]..o.indptr[i + 1]];
+    for i in 0..o.rows {
+        let r = row(i);
+        if !r.windows(2).all(|w| w[0] < w[1]) {
+            fail(&mut structural, "row-unsorted", format!("row {} = {:?}", i, r));
+        }
+        if r.contains(&i) {
+            fail(&mut structural, "self-loop", format!("row {} = {:?}", i, r));
+        }
+        if r.iter().any(|&j| j >= o.rows) {
+            fail(&mut structural, "index-range", format!("row {} = {:?}", i, r));
+        }
+    }
+    if structural.is_none() && o.rows == n {
+        for i in 0..n {
+            for &j in row(i) {
+                if !row(j).contains(&i) {
+                    fail(&mut semantic, "asymmetric", format!("{} in row {} but not conversely", j, i));
+                }
+            }
+            if d >= 1 {
+                let want: Vec<usize> = (0..n)
+                    .filter(|&j| j != i && cells[i].intersection(&cells[j]).count() >= d)
+                    .collect();
+                if want != row(i) {
+                    fail(
+                        &mut semantic,
+                        "adjacency-mismatch",
+                        format!("row {} = {:?}, definition gives {:?}", i, row(i), want),
+                    );
+                }
+            }
+        }
+    }
+    match bary {
+        Some(b) if b == o.rows => {}
+        Some(b) => fail(&mut structural, "centres-differ", format!("{} cell centres, {} graph vertices", b, o.rows)),
+        None => fail(&mut structural, "centres-panic", "barycentres panicked although dual did not".into()),
+    }
+    if used != o.rows && d != 1 {
+        fail(&mut structural, "used-count-differs", format!("used_element_count {} but {} graph vertices", used, o.rows));
+    }
+    (structural, semantic, degenerate, d)
+}
 
 pub fn run_op(ctx: &mut Ctx, op: &str) {
-    ctx.record(op.to_string(), "bad-op".into(), false);
+    let Some((medit, threads, nn, blocks)) = parse_op(op) else {
+        ctx.record(op.to_string(), "bad-op".into(), false);
+        return;
+    };
+    let space = if blocks.iter().any(|b| DIM[b.ty] == 3) { 3 } else { 2 };
+    let wf = blocks.iter().all(|b| b.refs == b.count());
+    let mesh = match catch(|| build_mesh(medit, space, nn, &blocks)) {
+        Caught::Ok(Ok(m)) => m,
+        Caught::Ok(Err(e)) => {
+            ctx.count("unbuildable");
+            ctx.record(op.to_string(), format!("skip {}", e), false);
+            return;
+        }
+        Caught::Panic(m) => {
+            ctx.count("build-panic");
+            ctx.record(op.to_string(), format!("skip build panic {}", m), false);
+            return;
+        }
+        Caught::Hang => unreachable!(),
+    };
+    let o = match observe(&mesh, threads) {
+        Caught::Ok(o) => o,
+        Caught::Panic(m) => {
+            // the only panic the model predicts: a node id that is not a node of the mesh
+            let valid = blocks.iter().all(|b| b.nodes.iter().all(|&x| x < nn));
+            ctx.count(if valid { "panic:valid-nodes" } else { "panic:node-out-of-range" });
+            let idx = ctx.record(op.to_string(), format!("panic {}", m), false);
+            if valid && wf {
+                ctx.fail(idx, "panic", format!("{} [{}]", m, panic_sig(&m)));
+            }
+            return;
+        }
+        Caught::Hang => unreachable!(),
+    };
+    // the other pool sizes must give the same arrays (schedules)
+    let mut pool_dep = None;
+    for &t in &POOLS {
+        if t == threads {
+            continue;
+        }
+        match observe(&mesh, t) {
+            Caught::Ok(o2) => {
+                if o2.indptr != o.indptr || o2.indices != o.indices || o2.rows != o.rows {
+                    pool_dep = Some(format!("pool {} and pool {} give different arrays", threads, t));
+                }
+            }
+            _ => pool_dep = Some(format!("pool {} panics, pool {} does not", t, threads)),
+        }
+    }
+    let bary = match catch(|| {
+        if space == 3 {
+            coupe_tools::barycentres::<3>(&mesh).len()
+        } else {
+            coupe_tools::barycentres::<2>(&mesh).len()
+        }
+    }) {
+        Caught::Ok(n) => Some(n),
+        _ => None,
+    };
+    let used = coupe_tools::used_element_count(&mesh);
+    let out = format!(
+        "ok {} | {} | {} | d{} | bary {} used {}",
+        o.rows,
+        join(&o.indptr),
+        join(&o.indices),
+        o.data_len,
+        bary.map(|n| n.to_string()).unwrap_or_else(|| "panic".into()),
+        used
+    );
+    let (structural, semantic, degenerate, d) = check(&blocks, &o, bary, used);
+    if d == 1 {
+        ctx.count(if used != o.rows { "edges-only:used-count-differs" } else { "edges-only:counts-equal" });
+    }
+    if d == 0 {
+        ctx.count("vertices-only");
+    }
+    ctx.count(if o.indices.is_empty() { "adjacency:none" } else { "adjacency:some" });
+    let nontrivial = wf && !degenerate && o.rows >= 2 && !o.indices.is_empty() && d >= 2 && d != usize::MAX;
+    let idx = ctx.record(op.to_string(), out, nontrivial);
+    if !wf {
+        // element lines without a reference column: outside `Mesh::from_raw_parts`' invariant;
+        // the model still predicts the arrays, the property is not evaluated
+        ctx.count("nonwf");
+        if let Some((sig, _)) = structural.as_ref().or(semantic.as_ref()) {
+            ctx.count(&format!("nonwf:{}", sig));
+        }
+        return;
+    }
+    if let Some(what) = pool_dep {
+        ctx.fail(idx, "pool-dependent", what);
+    }
+    if let Some((sig, what)) = structural {
+        ctx.fail(idx, sig, what);
+    }
+    if let Some((sig, what)) = semantic {
+        if degenerate {
+            ctx.count(&format!("degenerate:{}", sig));
+        } else {
+            ctx.fail(idx, sig, what);
+        }
+    } else if degenerate {
+        ctx.count("degenerate:consistent");
+    }
 }
